@@ -30,6 +30,7 @@ type state struct {
 	havocGhst bool     // all non-local ghost components are weakened/fresh relative to prev
 	havocKeys map[string]bool
 	havocPats []string
+	keepPats  []string // not havoced by havocHeap
 	havocIscopy bool
 	havocLocal bool // thread-local ghost variables too (unknown repository code)
 	guard     string // the havoc happened only if guard (else equal to prev); "" = unconditional
@@ -77,6 +78,13 @@ func (s *state) get(key string) string {
 		}
 	case s.prev != nil:
 		hav := s.havocKeys[key] || (s.havocHeap && isHeapKey(key)) || (s.havocGhst && meta.Ghost && (!meta.Local || s.havocLocal) && key != "G:$alloc")
+		if hav && s.havocHeap && isHeapKey(key) && !s.havocKeys[key] {
+			for _, p := range s.keepPats {
+				if keepMatches(key, p) {
+					hav = false
+				}
+			}
+		}
 		if s.havocIscopy && strings.HasPrefix(key, "G:iscopy$") {
 			hav = true
 		}
@@ -173,4 +181,20 @@ func (s *state) collectKeys(out map[string]bool, seen map[*state]bool) {
 	if s.prev != nil {
 		s.prev.collectKeys(out, seen)
 	}
+}
+
+// keepMatches: "preserves" patterns: exact key body, suffix match, or prefix match when the pattern ends in '*'.
+func keepMatches(key, pat string) bool {
+	if len(key) < 2 {
+		return false
+	}
+	body := key[2:]
+	if strings.HasPrefix(pat, "elem:") {
+		return key[0] == 'E' && (body == pat[5:] || hasSuffixAt(body, pat[5:]))
+	}
+	if strings.HasSuffix(pat, "*") {
+		p := pat[:len(pat)-1]
+		return key[0] == 'F' && (strings.HasPrefix(body, p) || strings.Contains(body, "/"+p) )
+	}
+	return keyMatches(key, pat)
 }
